@@ -269,6 +269,7 @@ Definition step (fx : fixes) (s : st) (w : wire) : st * list wire :=
       let tl := nth 0 a 0 in
       match parser_rs_fb fx (cur_prefix s) (take tl b) (drop tl b) with
       | Some (ch, ac, p, t) => (s, [mk 3 [1; ch; ac; p; t] []]) | None => (s, [mk 3 [0; 0; 0; 0; 0] []]) end
+    else if k =? 7 then (s, [])     (* FORM: the configuration page is not part of this model (C14); such cases are judged by the monitor only *)
     else if k =? 6 then
       let tl := nth 0 a 0 in
       match parser_brightness fx (cur_prefix s) (take tl b) (drop tl b) with
